@@ -62,7 +62,12 @@ PROPS = {
     "C13": dict(level="other", bounded=True, technique="bounded differential test against exact rational positions (fractions.Fraction) on files written directly with mido",
                 explanation="B: 13 resolutions x irregular delta patterns x track groupings / meta selections / meta targets.", assumptions=["A: mido"], note="not yet under contract; known finding D19"),
     "C15": dict(level="other", bounded=True, technique="bounded enumeration over families of sequences and all merge orders with an independent piano-roll oracle", explanation="B: sounding-set union, fusion, signatures, duration, order independence.", assumptions=[SORT], note="not yet under contract"),
-    "C17": dict(level="other", bounded=True, technique="bounded generated pairs: identical / re-ordered / re-represented / every single-attribute perturbation x 16 flag combinations", explanation="B: as described.", assumptions=[], note="not yet under contract"),
+    "C17": dict(level="other", bounded=True, technique="contract-based deductive verification of AbsoluteSequence.equals against the property's definition of equality over the canonical pairings, and of the Sequence.equals wrapper (same flags) + bounded generated pairs",
+                explanation="U: AbsoluteSequence.equals returns True iff the two interleaved pairing lists have equal length and agree pairwise on type, tick, pitch, duration, velocity unless ignored, channel unless ignored, "
+                            "signature values (loop invariant over zip, early returns, all 16 flag combinations symbolic); Sequence.equals delegates to it on the two absolute views with the same four flags, from every freshness state. "
+                            "B: reflexivity, symmetry, copies, re-representation, re-ordering and every single-attribute perturbation x 16 flag combinations.",
+                assumptions=[INTS, "A: get_interleaved_message_pairings is the canonical content extraction (notes paired, onset order); validated by the bounded tier"],
+                note="the pairing function itself is assumed"),
     "C19": dict(level="other", bounded=True, technique="bounded random vocabulary streams and tokenise output; note onsets recovered by detokenising every prefix", explanation="B: as described, both imputation settings, non-default ppqn.", assumptions=[STR], note="not yet under contract"),
 }
 
